@@ -2,6 +2,7 @@
 import collections
 
 from ..harness import UnitResult, Violation, short
+from ..ref import conform
 from .. import family, alphabet, rt
 from ..values import key
 
@@ -105,14 +106,101 @@ def _has_forward_refs(fields):
         for i, f in enumerate(fields) for n in family._names_defined(f["type"], []))
 
 
+def _has_record_union(node, defs, seen=None):
+    """Does the schema contain a union with at least two record branches?"""
+    from ..ref.names import deref
+
+    seen = set() if seen is None else seen
+    n = deref(node, defs)
+    k = n["k"]
+    if k == "record":
+        if n["name"] in seen:
+            return False
+        seen.add(n["name"])
+        return any(_has_record_union(f["type"], defs, seen) for f in n["fields"])
+    if k == "union":
+        if sum(1 for b in n["branches"] if deref(b, defs)["k"] == "record") >= 2:
+            return True
+        return any(_has_record_union(b, defs, seen) for b in n["branches"])
+    if k == "array":
+        return _has_record_union(n["items"], defs, seen)
+    if k == "map":
+        return _has_record_union(n["values"], defs, seen)
+    return False
+
+
 def units(tier):
-    return list(range(len(family.schemas(tier)) + len(family.logical_extras())))
+    return ["reentrant"] + list(range(len(family.schemas(tier)) + len(family.logical_extras())))
+
+
+def run_reentrant(fa, res, checks):
+    """A record given as a lazy Mapping whose item access itself encodes another value (to another stream) with the
+    library, in the middle of the outer write: each call is judged by its own schema and datum."""
+    import collections.abc
+    import io as _io
+
+    inner_schema = {"type": "record", "name": "Inner", "fields": [{"name": "v", "type": "long"}, {"name": "t", "type": "string"}]}
+    outer_schema = {"type": "record", "name": "Outer", "fields": [{"name": "a", "type": "string"}, {"name": "blob", "type": "bytes"}, {"name": "z", "type": "long"},
+                                                                 {"name": "u", "type": ["null", "string"]}]}
+    inner_datum = {"v": 8192, "t": "inner"}
+    want_inner = _io.BytesIO()
+    fa.schemaless_writer(want_inner, inner_schema, inner_datum)
+
+    class Lazy(collections.abc.Mapping):
+        def __init__(self):
+            self.side = []
+
+        def __getitem__(self, k):
+            if k == "a":
+                return "first"
+            if k == "blob":
+                fo = _io.BytesIO()
+                fa.schemaless_writer(fo, inner_schema, inner_datum)  # computed on demand with the same library
+                self.side.append(fo.getvalue())
+                return fo.getvalue()
+            if k == "z":
+                return -65
+            if k == "u":
+                return "last"
+            raise KeyError(k)
+
+        def __iter__(self):
+            return iter(["a", "blob", "z", "u"])
+
+        def __len__(self):
+            return 4
+
+    plain = {"a": "first", "blob": want_inner.getvalue(), "z": -65, "u": "last"}
+    want = _io.BytesIO()
+    fa.schemaless_writer(want, outer_schema, plain)
+    for form in ("raw", "parsed"):
+        res.evals += 1
+        sch = outer_schema if form == "raw" else fa.parse_schema(outer_schema)
+        lazy = Lazy()
+        fo = _io.BytesIO()
+        info = {"schema": outer_schema, "form": form, "datum": "<lazy mapping that encodes an inner record on access>"}
+        try:
+            fa.schemaless_writer(fo, sch, lazy)
+        except Exception as e:
+            res.add(Violation("rt.write", f"write-raised:{type(e).__name__}:reentrant", f"writing a lazy Mapping raised {type(e).__name__}: {e}", info))
+            continue
+        if fo.getvalue() != want.getvalue() or any(x != want_inner.getvalue() for x in lazy.side):
+            res.add(Violation("c02.bytes", "reentrant-write-differs", f"a record whose item access encodes another value: outer bytes {fo.getvalue().hex()} expected {want.getvalue().hex()}; inner {[x.hex() for x in lazy.side]}", info))
+            continue
+        back = fa.schemaless_reader(_io.BytesIO(fo.getvalue()), sch)
+        if back != plain:
+            res.add(Violation("c01.value", "roundtrip-different-value:reentrant", f"read back {short(back)}", info))
+    res.distinct = 2
+    res.sample({"reentrant": "lazy Mapping record"})
+    return res
 
 
 def run_unit(i, tier, checks):
     import fastavro as fa
 
     res = UnitResult()
+    if i == "reentrant":
+        return run_reentrant(fa, res, checks)
     raw = (family.schemas(tier) + family.logical_extras())[i]
     try:
         cases = rt.prepare(fa, raw)
@@ -135,6 +223,18 @@ def run_unit(i, tier, checks):
             res.evals += 1
             for v in rt.evaluate(fa, c, d, checks):
                 res.add(v)
+        # the strict options change which data are accepted, never which branch a conforming datum takes
+        if cost <= 1 and _has_record_union(node, defs):
+            try:
+                strict_ok = conform.conforms(node, defs, d, True)
+            except Exception:
+                strict_ok = False
+            if strict_ok and "'-type'" not in repr(d):  # (whether a '-type' key counts as an extra field under strict is not settled by the statements)
+                for opt in ({"strict": True}, {"strict_allow_default": True}):
+                    res.evals += 1
+                    for v in rt.evaluate(fa, cases[0], d, checks, opts=opt):
+                        v["sig"] = "strict:" + v["sig"]
+                        res.add(v)
     # strings that are not Unicode text (lone surrogates) have no UTF-8 form: the writer must refuse them
     if "c02" in checks:
         import io as _io
